@@ -627,7 +627,12 @@ class Array(metaclass=MetaArray):
             ll = value
         elif len(self._shape) > 1:
             shape = get_shape_from_array(value, len(self._shape))
-            ll = len(self) if tuple(shape) == tuple(self._shape) else len(value)
+            if tuple(shape) != tuple(self._shape):
+                raise ValueError(
+                    f"shape {tuple(shape)} of {value} is incompatible "
+                    f"with shape {tuple(self._shape)} of {self}"
+                )
+            ll = len(self)
         else:
             ll = len(value)
         if len(self) == ll:
